@@ -59,8 +59,9 @@ type Contract struct {
 	Key                string
 	Clauses            []*Clause
 	Trusted            string
-	Nilable            bool // receiver may be nil
-	UnreachableReturns int  // returns that are expected to be unreachable under the contract
+	Nilable            bool     // receiver may be nil
+	Opaque             []string // interface methods treated as unknown code in this function (no devirtualisation)
+	UnreachableReturns int      // returns that are expected to be unreachable under the contract
 	Line               int
 	Lemma              bool
 }
@@ -87,7 +88,7 @@ type ContractFile struct {
 }
 type GhostField struct{ Type, Field, Sort string }
 
-var reClause = regexp.MustCompile(`^(requires|ensures|modifies|decreases|trusted|nilable|hint|assume|preserves|unreachable-returns)(\[[A-Z0-9,]+\])?\s*(.*)$`)
+var reClause = regexp.MustCompile(`^(requires|ensures|modifies|decreases|trusted|nilable|hint|assume|preserves|unreachable-returns|opaque)(\[[A-Z0-9,]+\])?\s*(.*)$`)
 var reLoop = regexp.MustCompile(`^loop\s+(\d+)\s+(invariant|decreases|modifies|hint)(\[[A-Z0-9,]+\])?\s+(.*)$`)
 var rePure = regexp.MustCompile(`^(?:pure|arith)\s+([A-Za-z_][A-Za-z0-9_]*)\s*\(([^)]*)\)\s*:\s*([A-Za-z0-9_\[\]\*\.]+)\s*=\s*(.*)$`)
 var reGhost = regexp.MustCompile(`^ghost\s+field\s+([A-Za-z_][A-Za-z0-9_]*)\.([A-Za-z_][A-Za-z0-9_]*)\s*:\s*(.*)$`)
@@ -241,6 +242,13 @@ func parseContractFile(path string) (*ContractFile, error) {
 				continue
 			case "nilable":
 				cur.Nilable = true
+				continue
+			case "opaque":
+				for _, f := range strings.Split(m[3], ",") {
+					if f = strings.TrimSpace(f); f != "" {
+						cur.Opaque = append(cur.Opaque, f)
+					}
+				}
 				continue
 			case "unreachable-returns":
 				n, err := strconv.Atoi(strings.Fields(m[3] + " x")[0])
